@@ -25,6 +25,9 @@ def configs(tier):
     out.append({"part": "callback-list"})
     out.append({"part": "lambda-timer"})
     out.append({"part": "overrides"})
+    # the callee whose contract fixes how many batches an epoch has (one start/end pair each): _shuffle_data itself
+    for bases in (False, True):
+        out.append({"part": "shuffle", "bases": bases, "neg": "different"})
     return out
 
 
@@ -32,8 +35,13 @@ def canaries(tier):
     return [({"part": "fit", "nets": ["rbm_am"], "bases": False, "scheduler": False, "data": "tensor"}, "spec-no-epoch-end-after-stop")]
 
 
+def _shuffle_contract(ctx, cfg):
+    from lemmas import C07
+    return C07._shuffle(ctx, cfg)
+
+
 def run_config(ctx, cfg):
-    return {"fit": fit_part, "already-stopped": _already_stopped, "callback-list": _cblist, "lambda-timer": _lambda_timer,
+    return {"shuffle": _shuffle_contract, "fit": fit_part, "already-stopped": _already_stopped, "callback-list": _cblist, "lambda-timer": _lambda_timer,
             "overrides": _overrides}[cfg["part"]](ctx, cfg)
 
 
@@ -242,5 +250,8 @@ def _overrides(ctx, cfg):
 
 
 def replay(o):
+    if o["cfg"].get("part") == "shuffle":
+        from lemmas import C07
+        return C07.replay(o)
     from drivers import C12 as D
     return D.replay(o["cfg"], (o.get("witness") or {}).get("model") or {}, o.get("short") or "")
